@@ -559,6 +559,7 @@ class GenConfig:
     arrays_of_records: bool = False
     p_stream: float = 0.45
     p_expanded: float = 0.3
+    use_imported_types: bool = True
 
     @staticmethod
     def swarm(rng: Rng) -> "GenConfig":
@@ -575,6 +576,7 @@ class GenConfig:
         c.complex_types = rng.chance(0.7)
         c.p_stream = rng.choice([0.2, 0.45, 0.8])
         c.p_expanded = rng.choice([0.0, 0.3, 0.8])
+        c.use_imported_types = rng.chance(0.7)
         return c
 
 
@@ -630,7 +632,7 @@ class PackageGen:
         # pool entries: (Named type (closed), kind, props)
         self.pool = []          # closed named types usable anywhere
         self.generic_defs = []  # (def, kind)
-        for imp in imports:
+        for imp in (imports if cfg.use_imported_types else ()):
             for d in imp.defs():
                 if isinstance(d, Protocol):
                     continue
